@@ -155,6 +155,13 @@ func c11Run(c *mon.Case, content string, k int, ops string) bool {
 			m.unread()
 			m.unread()
 			what = "after multi-unread"
+		case 'A', 'B', 'C', 'D', 'E', 'F', 'G', 'H':
+			n := 33 + int(ops[i]-'A')
+			s.UnreadMany(n)
+			for k := 0; k < n; k++ {
+				m.unread()
+			}
+			what = "after multi-unread of more than 32 characters"
 		case 'R':
 			s.Reset()
 			m.p = -1
@@ -314,7 +321,7 @@ func buildC11(cfg *mon.Config) []*mon.Sub {
 		Floor: 100,
 		Gen: func(emit func(string)) {
 			r := cfg.Rng("c11-random")
-			chars := []string{"a", "b", " ", "é", "ш", "€", "😀", "\t", "\u2028", "\u2029", "\u0085", "\v", "\f"}
+			chars := []string{"a", "b", " ", "é", "ш", "€", "😀", "\t", "\u2028", "\u2029", "\u0085", "\v", "\f", "\u010a", "\u010d", "\u200d", "\u060d", "\U0001f60d", "\U0001040a"}
 			breaks := []string{"\n", "\r", "\r\n", "\n\r", "\n\n", "\r\r"}
 			for i := 0; i < cfg.N(3000, 200000); i++ {
 				var b strings.Builder
@@ -349,6 +356,9 @@ func buildC11(cfg *mon.Config) []*mon.Sub {
 						ops[j] = 'R'
 					default:
 						ops[j] = 'r'
+					}
+					if r.Chance(1, 25) {
+						ops[j] = byte('A' + r.Intn(8))
 					}
 				}
 				emit(c11Payload(content, k, string(ops)))
@@ -450,6 +460,11 @@ func buildC11(cfg *mon.Config) []*mon.Sub {
 							ops += strings.Repeat("r", 40) + strings.Repeat("u", 17)
 						}
 						ops += strings.Repeat("r", n) + strings.Repeat("M", n/3+2)
+						// back from the end in jumps of 33..40 characters (every landing position class is met:
+						// between CR and LF, on a break, at a line start), re-reading to the end in between
+						for k := 0; k < 8; k++ {
+							ops += strings.Repeat("r", n+1) + strings.Repeat(string(rune('A'+(k+pi)%8)), n/33+2)
+						}
 						emit(c11Payload(content, 0, ops))
 					}
 				}
